@@ -6,6 +6,7 @@ import (
 	"errors"
 	"fmt"
 	"io"
+	"regexp"
 	"strings"
 	"time"
 
@@ -25,31 +26,31 @@ type metaNested struct {
 }
 
 type metaTarget struct {
-	S    string               `mapstructure:"s" mapstructurealiases:"str,text"`
-	I    int                  `mapstructure:"i"`
-	I64  int64                `mapstructure:"i64"`
-	U8   uint8                `mapstructure:"u8"`
-	F    float64              `mapstructure:"f"`
-	B    bool                 `mapstructure:"b" mapstructurealiases:"flag"`
-	BP   *bool                `mapstructure:"bp"`
-	D    time.Duration        `mapstructure:"d" mapstructurealiases:"dur,timeout"`
-	DP   *time.Duration       `mapstructure:"dp"`
-	MD   metadata.Duration    `mapstructure:"md"`
-	MDP  *metadata.Duration   `mapstructure:"mdp"`
-	DS   []time.Duration      `mapstructure:"ds"`
-	DSP  *[]time.Duration     `mapstructure:"dsp"`
-	SS   []string             `mapstructure:"ss" mapstructurealiases:"list"`
-	SSP  *[]string            `mapstructure:"ssp"`
-	BS   metadata.ByteSize    `mapstructure:"bs" mapstructurealiases:"size,maxBytes"`
-	BSP  *metadata.ByteSize   `mapstructure:"bsp"`
-	SP   *string              `mapstructure:"sp"`
-	M    map[string]string    `mapstructure:"m"`
-	Any  any                  `mapstructure:"any"`
-	N    metaNested           `mapstructure:",squash"`
-	Sub  metaNested           `mapstructure:"sub"`
-	Skip string               // no tag
-	priv string               //nolint:unused
-	Rest map[string]any       `mapstructure:",remain"`
+	S    string             `mapstructure:"s" mapstructurealiases:"str,text"`
+	I    int                `mapstructure:"i"`
+	I64  int64              `mapstructure:"i64"`
+	U8   uint8              `mapstructure:"u8"`
+	F    float64            `mapstructure:"f"`
+	B    bool               `mapstructure:"b" mapstructurealiases:"flag"`
+	BP   *bool              `mapstructure:"bp"`
+	D    time.Duration      `mapstructure:"d" mapstructurealiases:"dur,timeout"`
+	DP   *time.Duration     `mapstructure:"dp"`
+	MD   metadata.Duration  `mapstructure:"md"`
+	MDP  *metadata.Duration `mapstructure:"mdp"`
+	DS   []time.Duration    `mapstructure:"ds"`
+	DSP  *[]time.Duration   `mapstructure:"dsp"`
+	SS   []string           `mapstructure:"ss" mapstructurealiases:"list"`
+	SSP  *[]string          `mapstructure:"ssp"`
+	BS   metadata.ByteSize  `mapstructure:"bs" mapstructurealiases:"size,maxBytes"`
+	BSP  *metadata.ByteSize `mapstructure:"bsp"`
+	SP   *string            `mapstructure:"sp"`
+	M    map[string]string  `mapstructure:"m"`
+	Any  any                `mapstructure:"any"`
+	N    metaNested         `mapstructure:",squash"`
+	Sub  metaNested         `mapstructure:"sub"`
+	Skip string             // no tag
+	priv string             //nolint:unused
+	Rest map[string]any     `mapstructure:",remain"`
 }
 
 var metaKeys = []string{"s", "str", "text", "i", "i64", "u8", "f", "b", "flag", "bp", "d", "dur", "timeout", "dp", "md", "mdp", "ds", "dsp", "ss", "list", "ssp", "bs", "size", "maxBytes", "bsp", "sp", "m", "any",
@@ -57,10 +58,34 @@ var metaKeys = []string{"s", "str", "text", "i", "i64", "u8", "f", "b", "flag", 
 
 var metaValues = []string{"", " ", "0", "1", "-1", "42", "3.14", "1e3", "true", "false", "TRUE", "yes", "no", "y", "on", "off", "t", "1 ", "abc", "5s", "1h30m", "-5m", "300ms", "1.5h", "1d", "PT5M", "P1D",
 	"9223372036854775807", "9223372036854775808", "-9223372036854775808", "9223372037", "18446744073709551616", "1,2,3", "1s,2m,,3h", " 5s , 6m ", ",", ",,", "5s,abc", "5,10",
-	"1Ki", "1Mi", "5G", "1e3", "100m", "0.5", "1.5Gi", "12345678901234567890Gi", "1E100", "1e-100", "1e2147483647", "9e999999999", "-1Ki", "1KiB", "Ki", "1 Ki", "0x10", "1_000", "٣", "NaN", "Inf", "+Inf",
+	"1Ki", "1Mi", "5G", "1e3", "100m", "0.5", "1.5Gi", "12345678901234567890Gi", "1E100", "1e-100", "1e9999", "9e-9999", "-1Ki", "1KiB", "Ki", "1 Ki", "0x10", "1_000", "٣", "NaN", "Inf", "+Inf",
 	`{"a":"b"}`, `["a"]`, "a=b", "日本語", "\xff\xfe", "\x00", strings.Repeat("9", 400), strings.Repeat("a,", 5000), strings.Repeat("1s,", 2000)}
 
-func genMetaValue(rng *mon.RNG) string {
+// hugeExponent: a decimal exponent of five or more digits. A ByteSize field hands its
+// value to k8s resource.ParseQuantity, which computes 10^|exponent| exactly: with a
+// large negative exponent (or a positive one that wraps around int32) the call does not
+// return in any practical time. That class is exercised by the three journalled cases of
+// the bytesize-exponent group at the head of the plan (a hang costs a watchdog period
+// and a child restart); everywhere else such exponents are cut down to four digits.
+var hugeExponent = regexp.MustCompile(`[eE][+-]?[0-9]{5,}`)
+
+func tameExponent(s string) string {
+	if !hugeExponent.MatchString(s) {
+		return s
+	}
+	ctr["metadata.value_rewritten.exponent_of_5_or_more_digits"]++
+	return hugeExponent.ReplaceAllStringFunc(s, func(m string) string {
+		i := 1
+		if len(m) > 1 && (m[1] == '+' || m[1] == '-') {
+			i = 2
+		}
+		return m[:i+4]
+	})
+}
+
+func genMetaValue(rng *mon.RNG) string { return tameExponent(genMetaValueRaw(rng)) }
+
+func genMetaValueRaw(rng *mon.RNG) string {
 	switch rng.Intn(10) {
 	case 0:
 		return boundaryInts[rng.Intn(len(boundaryInts))]
@@ -352,6 +377,35 @@ func observeOnly(what string, fn func()) {
 	ctr["observed_not_judged.returned"]++
 }
 
+// byteSizeExponentCases: byte sizes whose decimal exponent is far outside any useful
+// range, one journalled case each (see hugeExponent). The fourth case holds the
+// large exponents that return at once on the pinned tree.
+var byteSizeExponentCases = [][]string{
+	{"1e-2147483647"},
+	{"0.5e-1000000000"},
+	{"1E+2147483648", "999999999999999999999999999999e3999999999999"}, // the exponent wraps around int32
+	{"1e2147483647", "9e999999999", "1e1385447432", "1e3999999999999", "1e4294967297", "1e99999", "1e-99999", "1e-1001", "1e1001", "1e" + strings.Repeat("9", 30), "1e-" + strings.Repeat("9", 30)},
+}
+
+func runByteSizeExponent(c *cctx, k int) {
+	vals := byteSizeExponentCases[k]
+	c.begin(fmt.Sprintf("bytesize-exponent #%d: metadata.DecodeMetadata of a ByteSize / *ByteSize field from %q", k, vals))
+	c.sample = vals
+	rec.Count("metadata.bytesize_exponent_cases", 1) // not via ctr: must survive the death of this child
+	for _, v := range vals {
+		v := v
+		for _, key := range []string{"bs", "bsp"} {
+			key := key
+			c.step("metadata.DecodeMetadata input=map[string]string{" + c.q(key) + ": " + c.q(v) + "} result=*metaTarget")
+			rec.Flush()
+			c.call("metadata.DecodeMetadata", kv("input", fmt.Sprintf("map[string]string{%q: %q}", key, v), "result", "*metaTarget"), func() error {
+				return metadata.DecodeMetadata(map[string]string{key: v}, &metaTarget{})
+			})
+		}
+	}
+	ctr["metadata.bytesize_exponent_case_returned"]++
+}
+
 // ------------------------------------------------------------ config
 
 type upperString string
@@ -364,15 +418,6 @@ func (u *upperString) DecodeString(v string) error {
 	return nil
 }
 
-type valueDecoder struct{ V string }
-
-func (v valueDecoder) DecodeString(s string) error {
-	if strings.HasPrefix(s, "!") {
-		return errors.New("refused")
-	}
-	return nil
-}
-
 type cfgNested struct {
 	Name string        `mapstructure:"name"`
 	N    int           `mapstructure:"n"`
@@ -380,46 +425,44 @@ type cfgNested struct {
 }
 
 type cfgTarget struct {
-	S    string            `mapstructure:"s"`
-	SP   *string           `mapstructure:"sp"`
-	D    time.Duration     `mapstructure:"d"`
-	DP   *time.Duration    `mapstructure:"dp"`
-	T    time.Time         `mapstructure:"t"`
-	TP   *time.Time        `mapstructure:"tp"`
-	U    uint              `mapstructure:"u"`
-	U8   uint8             `mapstructure:"u8"`
-	U16  uint16            `mapstructure:"u16"`
-	U32  uint32            `mapstructure:"u32"`
-	U64  uint64            `mapstructure:"u64"`
-	I    int               `mapstructure:"i"`
-	I8   int8              `mapstructure:"i8"`
-	I16  int16             `mapstructure:"i16"`
-	I32  int32             `mapstructure:"i32"`
-	I64  int64             `mapstructure:"i64"`
-	IP   *int              `mapstructure:"ip"`
-	F32  float32           `mapstructure:"f32"`
-	F64  float64           `mapstructure:"f64"`
-	B    bool              `mapstructure:"b"`
-	BP   *bool             `mapstructure:"bp"`
-	US   upperString       `mapstructure:"us"`
-	USP  *upperString      `mapstructure:"usp"`
-	VD   valueDecoder      `mapstructure:"vd"`
-	VDP  *valueDecoder     `mapstructure:"vdp"`
-	L    []string          `mapstructure:"l"`
-	LI   []int             `mapstructure:"li"`
-	LD   []time.Duration   `mapstructure:"ld"`
-	M    map[string]any    `mapstructure:"m"`
-	MS   map[string]string `mapstructure:"ms"`
-	MI   map[string]int    `mapstructure:"mi"`
-	Any  any               `mapstructure:"any"`
-	N    cfgNested         `mapstructure:"nested"`
-	NP   *cfgNested        `mapstructure:"np"`
-	NL   []cfgNested       `mapstructure:"nl"`
-	Sq   cfgNested         `mapstructure:",squash"`
-	Arr  [2]int            `mapstructure:"arr"`
+	S   string            `mapstructure:"s"`
+	SP  *string           `mapstructure:"sp"`
+	D   time.Duration     `mapstructure:"d"`
+	DP  *time.Duration    `mapstructure:"dp"`
+	T   time.Time         `mapstructure:"t"`
+	TP  *time.Time        `mapstructure:"tp"`
+	U   uint              `mapstructure:"u"`
+	U8  uint8             `mapstructure:"u8"`
+	U16 uint16            `mapstructure:"u16"`
+	U32 uint32            `mapstructure:"u32"`
+	U64 uint64            `mapstructure:"u64"`
+	I   int               `mapstructure:"i"`
+	I8  int8              `mapstructure:"i8"`
+	I16 int16             `mapstructure:"i16"`
+	I32 int32             `mapstructure:"i32"`
+	I64 int64             `mapstructure:"i64"`
+	IP  *int              `mapstructure:"ip"`
+	F32 float32           `mapstructure:"f32"`
+	F64 float64           `mapstructure:"f64"`
+	B   bool              `mapstructure:"b"`
+	BP  *bool             `mapstructure:"bp"`
+	US  upperString       `mapstructure:"us"`
+	USP *upperString      `mapstructure:"usp"`
+	L   []string          `mapstructure:"l"`
+	LI  []int             `mapstructure:"li"`
+	LD  []time.Duration   `mapstructure:"ld"`
+	M   map[string]any    `mapstructure:"m"`
+	MS  map[string]string `mapstructure:"ms"`
+	MI  map[string]int    `mapstructure:"mi"`
+	Any any               `mapstructure:"any"`
+	N   cfgNested         `mapstructure:"nested"`
+	NP  *cfgNested        `mapstructure:"np"`
+	NL  []cfgNested       `mapstructure:"nl"`
+	Sq  cfgNested         `mapstructure:",squash"`
+	Arr [2]int            `mapstructure:"arr"`
 }
 
-var cfgKeys = []string{"s", "sp", "d", "dp", "t", "tp", "u", "u8", "u16", "u32", "u64", "i", "i8", "i16", "i32", "i64", "ip", "f32", "f64", "b", "bp", "us", "usp", "vd", "vdp", "l", "li", "ld", "m", "ms", "mi", "any",
+var cfgKeys = []string{"s", "sp", "d", "dp", "t", "tp", "u", "u8", "u16", "u32", "u64", "i", "i8", "i16", "i32", "i64", "ip", "f32", "f64", "b", "bp", "us", "usp", "l", "li", "ld", "m", "ms", "mi", "any",
 	"nested", "np", "nl", "name", "n", "arr", "unknown", "S", ""}
 
 var cfgStrings = []string{"", " ", "0", "1", "-1", "255", "256", "-129", "65536", "4294967296", "9223372036854775807", "9223372036854775808", "-9223372036854775809", "18446744073709551615", "18446744073709551616", "1.5", "1e3", "1e400", "NaN", "inf",
